@@ -8,4 +8,4 @@ mkdir -p build/corr build/replay build/logs evidence coq/Gen
 cd coq
 { echo "-Q . ME"; find Model Gen Proofs Properties -name '*.v' | LC_ALL=C sort; } > _CoqProject
 coq_makefile -f _CoqProject -o Makefile > /dev/null
-timeout 3000 make -j16 2>&1 | tail -40
+timeout 3000 make -k -j16 2>&1 | tail -40 || true
